@@ -14,8 +14,11 @@
    what is modelled of them is WHERE they may appear in the list and WHICH edit range they carry:
    a [VOpq kind range] item stands for any number of candidates of that kind with that edit range.
 
-   Not modelled (the result is [vskip] and the position is not compared): type declarations, function-call
-   arguments, expressions the serialiser files under "other" (splat, relative traversals, syntax errors).
+   Function calls: the argument slot the cursor belongs to (with the recovery of a trailing comma) and the
+   parameter type it is completed against.
+
+   Not modelled (the result is [vskip] and the position is not compared): type declarations and expressions the
+   serialiser files under "other" (splat, relative traversals, syntax errors).
 
    Positions are compared by byte offsets (and lines where the code looks at lines); columns are the
    business of the scanner-table oracle of C02. *)
@@ -228,6 +231,8 @@ Section Descent.
   Variable opens : range_table.          (* tuple / object constructor -> its opening bracket *)
   Variable empties : list range.         (* literal expressions whose value is cty.DynamicVal (isEmptyExpression) *)
   Variable vals : list (range * sexp).
+  Variable funcs : fsigs.                (* known functions: name -> (parameter types, variadic parameter type) *)
+  Variable parens : range_table.         (* call expression -> from its opening to its closing parenthesis *)
   Variable p : pos.
   Variable rec : constraint -> cexpr -> vres.
 
@@ -657,9 +662,57 @@ Section Descent.
             if Z.ltb plen 0 || Z.ltb (Z.of_nat (String.length root)) plen then vnil
             else vret [VOpq kFunction (rs (se_rng x)) (re (se_rng x))]
         | NTrav _ _ _ => vnil
-        | NCall _ _ _ | NOther => vskip
+        | NOther => vskip
         | _ => vnil
         end
+    end.
+
+  (* ---- function calls (functionExpr.CompletionAtPos on a FunctionCallExpr) ---- *)
+  Inductive arg_scan := AFound (a : sexpr) (i : nat) | ADone (last : option sexpr) (last_end : Z) (last_idx : nat).
+
+  Fixpoint arg_at (i : nat) (args : list sexpr) (last : option sexpr) (last_end : Z) (last_idx : nat) : arg_scan :=
+    match args with
+    | [] => ADone last last_end last_idx
+    | a :: r => if Z.ltb P (rs (se_rng a)) then ADone last last_end last_idx
+                else if at_or_end (se_rng a) p then AFound a i
+                else arg_at (S i) r (Some a) (re (se_rng a)) i
+    end.
+
+  Definition param_type (params : list ty) (varp : option ty) (i : nat) : option ty :=
+    match nth_error params i with Some t => Some t | None => varp end.
+
+  Definition call_cands (x : sexpr) : vres :=
+    match se_node x with
+    | NCall name nrng args =>
+        if contains_pos nrng p then vret [VOpq kFunction (rs (se_rng x)) (re (se_rng x))]
+        else
+          match alookup name funcs with
+          | None => vnil
+          | Some (params, varp) =>
+              match lookup_range parens (se_rng x) with
+              | None => vnil
+              | Some pr =>
+                  if negb (contains_pos pr p) then vnil
+                  else
+                    match params, varp with
+                    | [], None => vnil
+                    | _, _ =>
+                        match arg_at 0 args None (rs pr) 0 with
+                        | AFound a i =>
+                            match param_type params varp i with Some t => rec (CAny t false) (norm a) | None => vnil end
+                        | ADone last last_end last_idx =>
+                            let recovered := recover_left file P (fun off b => (b_eq b "," || b_eq b "(") && Z.ltb last_end off) in
+                            let trimmed := trim_right_set is_blank_tab_nl recovered in
+                            let comma := String.eqb (string_of_bytes trimmed) "," in
+                            let active := if comma then S last_idx else last_idx in
+                            let elem := if comma then CEmpty
+                                        else match recovered, last with [], Some a => norm a | _, _ => CEmpty end in
+                            match param_type params varp active with Some t => rec (CAny t false) elem | None => vnil end
+                        end
+                    end
+              end
+          end
+    | _ => vnil
     end.
 
   (* ---- any expression ---- *)
@@ -737,7 +790,8 @@ Section Descent.
                     | None => vnil
                     end
               end
-        | NCall _ _ _ | NOther => vskip
+        | NCall _ _ _ => call_cands x
+        | NOther => vskip
         | _ => leaf_cands t skip e
         end
     end.
@@ -781,10 +835,10 @@ Section Descent.
 End Descent.
 
 Fixpoint value_cands (prefill : bool) (file : bytes) (opens : range_table) (empties : list range) (vals : list (range * sexp))
-         (p : pos) (fuel : nat) (c : constraint) (e : cexpr) : vres :=
+         (funcs : fsigs) (parens : range_table) (p : pos) (fuel : nat) (c : constraint) (e : cexpr) : vres :=
   match fuel with
   | O => None
-  | S n => step_cands prefill file opens empties vals p (value_cands prefill file opens empties vals p n) c e
+  | S n => step_cands prefill file opens empties vals funcs parens p (value_cands prefill file opens empties vals funcs parens p n) c e
   end.
 
 (* ---------------- the whole file: body level (Model/Completion.v) + values ---------------- *)
@@ -871,13 +925,14 @@ Inductive vc_outcome := VCNotValue | VCCompared | VCUnmodelled | VCNotCompared |
 Definition run_value_cands (kind : string) (args : list sexp) : option sexp :=
   if String.eqb kind "valuecands" || String.eqb kind "valuecandsstat" then
     match args with
-    | [pf; mx; SStr file; toks; SList dec; b; bs; SList es; op; em; SList vs; SList pairs] =>
+    | [pf; mx; SStr file; toks; SList dec; b; bs; SList es; op; em; SList vs; SList fs; prn; SList pairs] =>
         let tokens := match toks with SList ts => map_opt token_of_sexp ts | _ => None end in
         let lex_failed := match toks with SAtom _ => true | _ => false end in
         match as_bool pf, as_Z mx, map_opt decoded_of_sexp dec, Ast.body_of_sexp b, Schema.body_of_sexp bs,
               map_opt sexpr_entry_of_sexp es, range_table_of_sexp op, ranges_of_sexp em,
-              map_opt (fun x => match x with SList [r; v] => option_map (fun r' => (r', v)) (range_of_sexp r) | _ => None end) vs with
-        | Some pf, Some mx, Some dec, Some b, Some bs, Some es, Some op, Some em, Some vs =>
+              map_opt (fun x => match x with SList [r; v] => option_map (fun r' => (r', v)) (range_of_sexp r) | _ => None end) vs,
+              map_opt fsig_of_sexp fs, range_table_of_sexp prn with
+        | Some pf, Some mx, Some dec, Some b, Some bs, Some es, Some op, Some em, Some vs, Some fs, Some prn =>
             match tokens, lex_failed with
             | None, false => None
             | _, _ =>
@@ -898,7 +953,7 @@ Definition run_value_cands (kind : string) (args : list sexp) : option sexp :=
                                     match map_opt ocandv_of_sexp ol with
                                     | Some ol' =>
                                         let ce := if existsb (range_eqb (se_rng e)) em then (match se_node e with NLit _ => CEmpty | _ => CExpr e end) else CExpr e in
-                                        match value_cands pf fb op em vs pp 40 (as_cons s) ce with
+                                        match value_cands pf fb op em vs fs prn pp 40 (as_cons s) ce with
                                         | Some (Some items) =>
                                             if items_match items ol' && sexp_eqb complete (sB true) then VCCompared
                                             else VCBad (SList [p; SList (map sexp_of_vitem items)])
@@ -928,7 +983,7 @@ Definition run_value_cands (kind : string) (args : list sexp) : option sexp :=
                 else
                 match bad with [] => Some (SList [SAtom "allok"]) | _ => Some (SList (SAtom "mismatch" :: bad)) end
             end
-        | _, _, _, _, _, _, _, _, _ => None
+        | _, _, _, _, _, _, _, _, _, _, _ => None
         end
     | _ => None
     end
